@@ -32,6 +32,9 @@ RULE = ("every run starts with the boundary counts N = 1, 2, 63, 64, 65, 128, 25
         "each step is run in memory (StopgapMotl.convert_to_sg_motl), via file (StopgapMotl(df).write_out -> own STAR parser + proved Lean reader -> "
         "StopgapMotl(path), then StopgapMotl(<that object>)), through emmotl2stopgap, and through the wrappers Motl(df).write_out(path, 'stopgap') -> "
         "Motl.load(path, 'stopgap') (motl_type positional or by keyword), all on the SAME caller-owned DataFrame object, which is compared before/after every call. "
+        "~40 % of the steps continue with a HISTORY on the list loaded back from the file just written (the object then also holds the STOPGAP table it was "
+        "made from): fields edited in place without adding / removing particles (~60 %) and / or update_coord, then write_out to a new path x reset_index; "
+        "the second file and its reload are judged like a first export against the list held right before the call. "
         "~32 % of the export cases (N < 128) have a second step in the same process: a different list (other count) written to and loaded from the SAME paths, "
         "or the caller's frame edited in place and converted / written again; the second step is judged exactly like the first. "
         "import cases: STOPGAP tables of N in 1..300 rows with the 16 columns in any order and row index default / filtered / shuffled / offset / duplicated "
@@ -851,6 +854,10 @@ def _export_step(rng, tier, n=None, like=None):
     if repeated != "none":
         step["repeated"] = repeated
     if rng.random() < 0.4:
+        # a HISTORY on the list loaded back from the file just written: StopgapMotl(path) (the object then also holds the STOPGAP
+        # table it was made from) -> fields edited in place (same particles) and / or update_coord -> written again
+        step["hist"] = dict(update=_opt(rng), reset=_opt(rng), edit=rng.randrange(1, 2 ** 31) if rng.random() < 0.6 else None)
+    if rng.random() < 0.4:
         step["wrap_kw"] = True          # Motl.write_out(path, motl_type="stopgap") / Motl.load(path, motl_type="stopgap") by keyword
     return step
 
@@ -1003,6 +1010,12 @@ def shrink(case):
             for k in range(n):
                 yield sub([i for i in range(n) if i != k])
     if case["kind"] == "export":
+        if case.get("hist"):
+            hs = case["hist"]
+            if hs.get("edit") is not None and hs["update"]:
+                yield dict(case, hist=dict(hs, edit=None))
+            if hs["reset"]:
+                yield dict(case, hist=dict(hs, reset=False))
         if case["update"]:
             yield dict(case, update=False)
         if case["reset"]:
@@ -1134,6 +1147,41 @@ def _kw(step, **names):
     return {kw: step[key] for kw, key in names.items() if step[key] is not None}
 
 
+HIST_EDIT_COLS = ["score", "phi", "psi", "theta", "class", "shift_x", "tomo_id"]
+
+
+def _run_history(hist, p_in, p_out, cryomotl):
+    """write -> LOAD from the file -> edit in place / update_coord -> write again.  The list the loaded object holds right before
+    the second write_out (`before`, after the in-place edit) is the input the second file is judged against."""
+    import random as _random
+
+    def route():
+        l = cryomotl.StopgapMotl(p_in)                     # created from a STOPGAP table: the object keeps that table in sg_df
+        n = len(l.df)
+        if hist.get("edit") is not None:                   # the user edits fields of the list in place; no particle added / removed / renumbered
+            r = _random.Random(hist["edit"])
+            for c in HIST_EDIT_COLS:
+                if r.random() < 0.7:
+                    if c in ("class", "tomo_id"):
+                        l.df[c] = [float(r.randint(1, 40)) for _ in range(n)]
+                    elif c == "shift_x":
+                        l.df[c] = [r.choice([0.5, -0.5, 1.5, -2.5, round(r.uniform(-6, 6), 3)]) for _ in range(n)]
+                    else:
+                        l.df[c] = [round(r.uniform(-180, 180), 3) for _ in range(n)]
+        before = _frame(l.df, MOTL_COLS)
+        l.write_out(p_out, **_kw(hist, update_coord="update", reset_index="reset"))
+        return l, before
+
+    res, err = _guard(route)
+    if err:
+        return err
+    l, before = res
+    h = _file_obs(p_out, cryomotl)
+    h["before"] = before
+    h["after"] = _frame(l.df, MOTL_COLS)
+    return h
+
+
 def _run_export_step(step, df, td, cryomotl):
     o = {"mutated": []}
     snap = [_snap(df)]
@@ -1164,6 +1212,8 @@ def _run_export_step(step, df, td, cryomotl):
         o["file"] = f
         cp, err = _guard(lambda: cryomotl.StopgapMotl(m))          # the StopgapMotl(StopgapMotl) branch of the constructor: a copy
         f["ctor_copy"] = err or dict(same=_frame(cp.df, MOTL_COLS)["rows"] == f["after"]["rows"], type=type(cp).__name__)
+        if step.get("hist") and "load_error" not in f:
+            o["hist"] = _run_history(step["hist"], p, os.path.join(td, "d.star"), cryomotl)
     # the wrapper entry points sta.py / tmana.py use: Motl.write_out(path, "stopgap") and Motl.load(path, "stopgap") (no keywords to pass)
     p3 = os.path.join(td, "c.star")
     mt = step.get("wrap_kw", False)
@@ -1379,7 +1429,7 @@ def _direct_update(step, after, update, label):
         for c in fixed:
             k = MOTL_COLS.index(c)
             a, b = src[k], row[k]
-            same = b2f(a) == b2f(b)                                # equal VALUE, any numeric dtype
+            same = b2f(a) == b2f(b) or (math.isnan(b2f(a)) and math.isnan(b2f(b)))      # equal VALUE, any numeric dtype (NaN: the six fields a loaded STOPGAP list does not have)
             if not same:
                 kind = "held-list" if c in [e for e, _ in DOC_PAIRS] else "held-list-other"
                 return [(kind, f"{label}: particle {i}: field {c} of the held list is {b2f(b)!r}, was passed as {b2f(a)!r}")]
@@ -1564,6 +1614,29 @@ def _judge_export_step(step, so, resps, tag, F):
                     break
             if stop:
                 break
+    # ---- history: the list LOADED from the file of this step, edited in place / re-centred, written again.  The second file is
+    # judged by the same direct evaluations as a first export, against the list the loaded object held right before the call
+    # (independent of the model: spec)
+    h = so.get("hist")
+    if h is not None:
+        hs = step["hist"]
+        label = f"{tag}history (write -> StopgapMotl(path) -> " + ("edit in place -> " if hs.get("edit") is not None else "") + f"write_out(update_coord={hs['update']}, reset_index={hs['reset']}))"
+        if "error" in h:
+            F(*_err_finding(h, label))
+        elif h["before"]["cols"] != MOTL_COLS or any(not isinstance(b, int) for r in h["before"]["rows"] for b in r):
+            F("corr", "history-list-not-numeric", f"{label}: the list loaded from the written file is not a numeric 20-column list")
+        else:
+            pseudo = dict(rows=h["before"]["rows"])
+            bad = _direct_update(pseudo, h["after"], bool(hs["update"]), label)
+            if not bad:
+                bad = _direct_export_file(pseudo, h, label, bool(hs["reset"]))
+            for cl, det in bad:
+                if cl.startswith("corr:"):
+                    F("corr", cl[5:], det)
+                elif cl == "held-list-other":
+                    F("corr", cl, det)
+                else:
+                    F("spec", cl, det)
 
 
 def judge(case, obs, resps):
@@ -1674,6 +1747,7 @@ def stats(case, obs, resps):
         s.update({"reset": opt(case["reset"]), "update": opt(case["update"]), "index": case["index"], "id_dtype": "int64" if case["int_ids"] else "float64",
                   "int64_columns": "all" if case.get("int_cols") == MOTL_COLS else ("ids+coords" if case.get("int_cols") else ("ids" if case["int_ids"] else "none")),
                   "wrapper_call": "keyword" if case.get("wrap_kw") else "positional",
+                  "history": "none" if not case.get("hist") else ("+".join(k for k, on in (("edit", case["hist"].get("edit") is not None), ("update", bool(case["hist"]["update"])), ("reset", bool(case["hist"]["reset"]))) if on) or "plain"),
                   "col_order": "canonical" if case["cols"] == MOTL_COLS else "shuffled",
                   "parity": "both" if len({_is_even(x) for x in ids}) == 2 else ("all-even" if _is_even(ids[0]) else "all-odd"),
                   "ids": "sequential" if ids == [float(i + 1) for i in range(n)] else "non-sequential", "id_values": _id_kind(ids),
